@@ -82,8 +82,8 @@ AIStep(S, pid) ==
 (* ----------------------- provision_ingest_resources --------------------- *)
 (* asg: sequence of distinct available machines, one per ingest task       *)
 IngestTask(o, i) == <<o, -i>>          \* i = 1..ingest demand
-NewIngestTask(o, m) ==
-    [ status |-> "SCHEDULED", m |-> m, ast |-> NoneT, aft |-> NoneT,
+NewIngestTask(o, m, now) ==
+    [ status |-> "SCHEDULED", m |-> m, alloc |-> now, ast |-> NoneT, aft |-> NoneT,
       dur |-> OCfg(o).dur, flag |-> FALSE, doff |-> 0, pm |-> NoM ]
 PIStep(S, pid, asg) ==
     LET o == pid[2]
@@ -94,7 +94,7 @@ PIStep(S, pid, asg) ==
                 S1 == [S EXCEPT !.cl.ingStatus = TRUE,
                                 !.cl.avail = @ \ ms, !.cl.ingest = @ \cup ms,
                                 !.tasks = @ @@ [t \in {IngestTask(o, i) : i \in 1..d} |->
-                                                  NewIngestTask(o, asg[-t[2]])],
+                                                  NewIngestTask(o, asg[-t[2]], S.now)],
                                 !.procs[pid].started = TRUE]
                 SpawnTP(T, i) == Spawn(T, TpPid(IngestTask(o, i)),
                                        Loc(FALSE, 0, asg[i], "", EmptyFn))
@@ -102,8 +102,9 @@ PIStep(S, pid, asg) ==
             IN Sleep(S2, pid, STEP)
 PIAssignments(S, o) ==
     LET d == OCfg(o).ing
+        all == {a \in [1..d -> S.cl.avail] : \A i, j \in 1..d : i # j => a[i] # a[j]}
     IN IF d > Cardinality(S.cl.avail) THEN {<<>>}
-       ELSE {a \in [1..d -> S.cl.avail] : \A i, j \in 1..d : i # j => a[i] # a[j]}
+       ELSE IF cfg.canon THEN {CHOOSE a \in all : TRUE} ELSE all
 
 (* --------------------------- ingest_data_stream ------------------------- *)
 STStep(S, pid) ==
@@ -229,7 +230,7 @@ CluTick(S) == Sleep([S EXCEPT !.procs[Actor("Clu")].started = TRUE], Actor("Clu"
 NewPlanTask(o, k) ==
     LET t == <<o, k>>
         st == t \in DOMAIN cfg.plan
-    IN [ status |-> "UNSCHEDULED", m |-> NoM, ast |-> NoneT, aft |-> NoneT,
+    IN [ status |-> "UNSCHEDULED", m |-> NoM, alloc |-> NoneT, ast |-> NoneT, aft |-> NoneT,
          dur |-> IF st THEN cfg.plan[t].eft - cfg.plan[t].est ELSE 0,
          flag |-> FALSE, doff |-> 0, pm |-> IF st THEN cfg.plan[t].m ELSE NoM ]
 AtLoc0 == Loc(FALSE, 0, NoM, "", EmptyFn)
